@@ -344,6 +344,14 @@ def known_still_fails(k):
             return exc is not None or bool(preds.PREDS[k["property"]](model, w["params"], run))
         except Exception:
             return True
+    if w.get("kind") == "unit-time":
+        try:
+            from real import build
+            pr = build(w["spec"])
+            pr.simulate(unit_time=w["unit_time"])
+            return pr.time != len(pr.cost_list)
+        except Exception:
+            return True
     if w.get("kind") == "c20-zero":
         import persist
         try:
